@@ -420,6 +420,8 @@ def canon_outcome(fn, show):
         return 'assert'
     except OutOfScript:
         return 'fuel'
+    except ValueError as exc:
+        return 'valerr'         # ctypes refuses to turn a wchar_t above U+10FFFF into a str
     except Exception as exc:
         return crash(exc)
     return 'ok ' + show(r)
@@ -738,6 +740,7 @@ def build_streams(chk, names, sizes):
             if enc not in G.EXTRA_CODECS:
                 pool = rng.sample(pool, min(len(pool), sizes['real_loop']))
                 pool += [lenient_encode(t, enc) for t in ('日本語のテキスト', 'abc' * 50, '한국어', '€uro', 'żółć', '中文' * 40)]
+            pool = [x for c, x in CORPUS_BYTES if c == 'LOOP:' + enc] + pool
             for b in pool:
                 if not b:
                     continue
@@ -825,7 +828,7 @@ class Cex(list):
             super().append(c)
 
 KEY_KOI8T = 'portable:KOI8-T:data-says-not-python-but-python-ships-koi8_t'
-KEY_EUCTW = 'roundtrip:EUC-TW:plane-1-four-byte-form-8EA1'
+KEY_EUCTW = 'roundtrip:EUC-TW:glibc-decodes-two-byte-strings-to-the-same-text'
 
 def ref_normalise(name):
     e = ''.join(chr(ord(c) + 32) if 'A' <= c <= 'Z' else c for c in name)
@@ -923,7 +926,7 @@ def codec_objects():
     try:
         ci = E._codec_search_function('koi8_t')
         if ci is not None:
-            objs.append(('KOI8-T', 'KOI8-T(tool)', (lambda b, ci=ci: ci.decode(b)[0]), (lambda s, ci=ci: ci.encode(s)[0])))
+            objs.append(('KOI8-T', "lib.encodings._codec_search_function('koi8_t')", (lambda b, ci=ci: ci.decode(b)[0]), (lambda s, ci=ci: ci.encode(s)[0])))
     except Exception:
         pass
     return objs
@@ -974,7 +977,10 @@ def falsify_codecs(chk, sizes):
                 except Exception as exc:
                     back = f'{type(exc).__name__}: {exc}'
                 if back != b:
-                    key = KEY_EUCTW if name == 'EUC-TW' and b'\x8e\xa1' in b else f'roundtrip:{name}'
+                    # the recorded class: iconv itself decodes `back` and `b` to the same text (the charset as glibc implements it
+                    # is not injective), so no encoder could return both
+                    same = name == 'EUC-TW' and isinstance(back, bytes) and R.decode(name, back) == ('ok', t) and r == ('ok', t)
+                    key = KEY_EUCTW if same else f'roundtrip:{name}'
                     cex.append({'kind': 'roundtrip', 'key': key, 'codec': label, 'bytes': b.hex(), 'decoded': t,
                                 'encoded_back': back.hex() if isinstance(back, bytes) else back,
                                 'replay': f'bytes.fromhex({b.hex()!r}).decode({name!r}).encode({name!r})'})
@@ -1089,22 +1095,36 @@ def falsify_loop(chk, sizes):
                     continue
                 out, s = impl_real_decode(enc, b)
                 head = out.split(' trace=')[0]
-                r = R.decode(enc, b)
+                w = R.convert('WCHAR_T', enc, b)
+                units = [int.from_bytes((w['main'] + w['flush'])[i:i + 4], 'little') for i in range(0, len(w['main'] + w['flush']) - 3, 4)]
                 stats['real:' + head.split(' ')[0]] += 1
-                exp_ok = r[0] == 'ok'
+                rep = f'lib.iconv.decode(bytes.fromhex({b.hex()!r}), encoding={enc!r})'
                 if s.overrun is not None:
                     cex.append({'kind': 'told-more-than-allocated', 'key': 'loop:overrun', 'observed': str(s.overrun), 'encoding': enc, 'bytes': b.hex(),
-                                'replay': f'lib.iconv.decode(bytes.fromhex({b.hex()!r}), encoding={enc!r})'})
-                if head.startswith('ok') != exp_ok or (exp_ok and head != 'ok ' + hexchars(r[1])):
-                    cex.append({'kind': 'binding-differs-from-iconv', 'key': f'loop:real:{enc}', 'encoding': enc, 'bytes': b.hex(), 'observed': head[:200],
-                                'iconv': repr(r)[:200], 'replay': f'lib.iconv.decode(bytes.fromhex({b.hex()!r}), encoding={enc!r})'})
+                                'replay': rep})
+                if s.contract_broken:
+                    cex.append({'kind': 'iconv-broke-its-contract', 'key': 'loop:contract', 'observed': s.contract_broken, 'encoding': enc,
+                                'bytes': b.hex(), 'replay': rep})
+                if w['rc'] == 'ok' and any(u > 0x10FFFF for u in units):
+                    # glibc handed back a wide character above U+10FFFF (UTF-8 -> WCHAR_T is lenient): the binding raises ValueError.
+                    # Not one of the five extra codecs, hence outside the property; counted.
+                    stats['real:wchar-out-of-range'] += 1
+                    if enc in G.EXTRA_CODECS:
+                        cex.append({'kind': 'binding-crash', 'key': f'loop:valerr:{enc}', 'encoding': enc, 'bytes': b.hex(), 'observed': head, 'replay': rep})
+                    continue
+                if w['rc'] == 'ok':
+                    exp = 'ok ' + hexchars(''.join(map(chr, units)))
+                    if head != exp:
+                        cex.append({'kind': 'binding-differs-from-iconv', 'key': f'loop:real:{enc}', 'encoding': enc, 'bytes': b.hex(),
+                                    'observed': head[:200], 'iconv': exp[:200], 'replay': rep})
                 elif head.startswith('uerr'):
                     _, a, e = head.split(' ')
-                    if not (0 <= int(a) < int(e) <= len(b)) or int(a) != r[1]:
+                    if not (0 <= int(a) < int(e) <= len(b)) or int(a) != w['consumed']:
                         cex.append({'kind': 'loop-error-span', 'key': 'loop:span', 'encoding': enc, 'bytes': b.hex(), 'observed': head,
-                                    'iconv_stopped_at': r[1], 'replay': f'lib.iconv.decode(bytes.fromhex({b.hex()!r}), encoding={enc!r})'})
-                elif not head.startswith('ok'):
-                    cex.append({'kind': 'binding-crash', 'key': 'loop:' + head.split(' ')[0], 'encoding': enc, 'bytes': b.hex(), 'observed': head})
+                                    'iconv_stopped_at': w['consumed'], 'replay': rep})
+                else:
+                    cex.append({'kind': 'binding-differs-from-iconv', 'key': f'loop:real:{enc}', 'encoding': enc, 'bytes': b.hex(),
+                                'observed': head[:200], 'iconv': w['rc'], 'replay': rep})
                 if len(cex) > 20:
                     return cex
     chk.coverage.setdefault('falsifier', {})['iconv-binding'] = dict(stats)
